@@ -114,6 +114,14 @@ def steady(ctx):
                     grp = pairs[i:i + d]; i += d
                     parr += [(">", b"".join(x[0] for x in grp)), ("<", b"".join(x[1] for x in grp))]
                 out.append(Scn("steady/%s" % label, parr, {"autod": 1, "freed": 1, "loglevel": 0, "cls": "steady", "dump": 0, "maxcb": 100000000, "maxsec": 3000}))
+                # ... and with every message in its own call: a finished transaction is disposed of, and its slot recycled (htp_connp_tx_freed
+                # after every call), while younger transactions of the same group are still listed and unanswered
+                sarr, i, k = [], 0, 0
+                while i < n:
+                    d = depths[k % len(depths)]; k += 1
+                    grp = pairs[i:i + d]; i += d
+                    sarr += [(">", x[0]) for x in grp] + [("<", x[1]) for x in grp]
+                out.append(Scn("steady/%s.split" % label, sarr, {"autod": 1, "freed": 1, "loglevel": 0, "cls": "steady", "dump": 0, "maxcb": 100000000, "maxsec": 3000}))
     return out
 
 
